@@ -284,14 +284,16 @@ class QAdaptiveActivation(Layer, PrunableLayer):
     if isinstance(current_step, tf.Variable):
       self.step = current_step
     elif current_step is None:
-      self.step = tf.Variable(-1, dtype=tf.int64)
+      self.step = tf.Variable(-1, dtype=tf.int64, trainable=False,
+                              name=self.name + "/current_step")
       self.is_estimating_step_count = True
       print("[WARNING] QAdaptiveActivation is estimating it's own training "
             "step count, which may not always be the same as the true optimizer"
             " training step. To mitigate this, please set the current_step "
             "parameter when initializing QAdaptiveActivation", file=sys.stderr)
     else:
-      self.step = tf.Variable(current_step, dtype=tf.int64)
+      self.step = tf.Variable(current_step, dtype=tf.int64, trainable=False,
+                              name=self.name + "/current_step")
       print("[WARNING] QAdaptiveActivation is disconnected from the optimizer "
             "current step, which may lead to incorrect training. If you wish to"
             " resume training, set this layer's self.step to the optimizer's "
